@@ -6,7 +6,8 @@
 (* step of a thread blocked on a subscriber lock.                          *)
 (*                                                                         *)
 (*  create(u)  : [uepool.miss -> uepool.stored ->] create.locking ->       *)
-(*               create.locked -> opencdr.seq -> create.unlocking -> done  *)
+(*               create.locked -> create.refread -> opencdr.seq ->         *)
+(*               create.unlocking -> done                                  *)
 (*  update/release(u,s) : x.locking -> x.locked -> x.unlocking -> done     *)
 (*  recharge(u): [recharge.locking -> recharge.locked ->] recharge.write   *)
 (*               [-> recharge.unlocking]                                   *)
@@ -110,12 +111,18 @@ Release(t) ==
        [] h \in {"create.locking", "update.locking", "release.locking", "recharge.locking"} ->
             /\ TryLock(t, o, LockHook(r.kind)) /\ UNCHANGED <<pool, ctr, loc, acked, applied, acc, nobj>>
        [] h = "create.locked" ->
-            \* read the counter for the reference, then OpenCDR increments it under the context lock
-            /\ loc' = [loc EXCEPT ![t].seq = ctr] /\ ctr' = ctr + 1
-            /\ acc' = acc \cup {[v |-> "ctr", obj |-> 0, w |-> FALSE, locked |-> ~DEV_SeqReadUnlocked],
-                                [v |-> "ctr", obj |-> 0, w |-> TRUE, locked |-> TRUE]}
+            \* the counter is read for the reference (one critical section of the context lock) ...
+            /\ loc' = [loc EXCEPT ![t].seq = ctr]
+            /\ acc' = acc \cup {[v |-> "ctr", obj |-> 0, w |-> FALSE, locked |-> ~DEV_SeqReadUnlocked]}
+            /\ pc' = [pc EXCEPT ![t] = [at |-> "create.refread", then |-> ""]]
+            /\ UNCHANGED <<pool, objs, ctr, acked, applied, nobj>>
+       [] h = "create.refread" ->
+            \* ... and advanced by OpenCDR in another one: creates of OTHER subscribers may read the same value in between (their
+            \* references differ in the subscriber part)
+            /\ ctr' = ctr + 1
+            /\ acc' = acc \cup {[v |-> "ctr", obj |-> 0, w |-> TRUE, locked |-> TRUE]}
             /\ pc' = [pc EXCEPT ![t] = [at |-> "opencdr.seq", then |-> ""]]
-            /\ UNCHANGED <<pool, objs, acked, applied, nobj>>
+            /\ UNCHANGED <<pool, objs, loc, acked, applied, nobj>>
        [] h = "opencdr.seq" ->
             /\ objs' = [objs EXCEPT ![o].sessions = @ \cup {Ref(r.u, loc[t].seq)}]
             /\ acc' = acc \cup {[v |-> "cdr", obj |-> o, w |-> TRUE, locked |-> HoldsLock(t, o)]}
